@@ -22,6 +22,7 @@
 (*   cb     : nesting depth of internal critical sections (callbacks)      *)
 (*   regF   : [filter id -> filter]   registered (cached) filters          *)
 (*   obs    : [observer id -> observer spec] registered observers          *)
+(*   res    : [resource type -> value]  the resources present              *)
 (* A handle is a pair <<id, gen>>; Zero == <<0,0>> is the zero entity.     *)
 (***************************************************************************)
 EXTENDS Integers, Sequences, FiniteSets, TLC
@@ -37,7 +38,7 @@ EmptyFn       == [x \in {} |-> x]
 Fn(r)         == [k \in DOMAIN r |-> r[k]]   \* normal form of a JSON object / record as a function
 
 NewWorld(rel) == [ent |-> EmptyFn, issued |-> {}, rel |-> rel, open |-> EmptyFn,
-                  cb |-> 0, regF |-> EmptyFn, obs |-> EmptyFn]
+                  cb |-> 0, regF |-> EmptyFn, obs |-> EmptyFn, res |-> EmptyFn]
 
 Alive(w)   == DOMAIN w.ent
 IsAlive(w, h) == h \in DOMAIN w.ent
@@ -214,6 +215,20 @@ DoReset(w)  == NewWorld(w.rel)
 PreLoad(w) == ~Locked(w)
 DoLoad(w)  == [NewWorld(w.rel) EXCEPT !.ent = [h \in DOMAIN w.ent |-> [c |-> {}, v |-> EmptyFn, t |-> EmptyFn]],
                                       !.issued = w.issued]
+
+(***************************************************************************)
+(* Resources (C18, C16): a partial map from resource type to value.  Add   *)
+(* of a type that is present and Remove of one that is absent panic and    *)
+(* change nothing; the world lock does not matter; Get returns the stored  *)
+(* pointer (writes through it are ResSet); Reset removes all resources.    *)
+(***************************************************************************)
+HasRes(w, t)       == t \in DOMAIN w.res
+PreResAdd(w, t)    == ~HasRes(w, t)
+DoResAdd(w, t, v)  == [w EXCEPT !.res = Merge(@, Single(t, v))]
+PreResRemove(w, t) == HasRes(w, t)
+DoResRemove(w, t)  == [w EXCEPT !.res = Drop(@, {t})]
+PreResSet(w, t)    == HasRes(w, t)
+DoResSet(w, t, v)  == [w EXCEPT !.res[t] = v]
 
 (***************************************************************************)
 (* Observers (C08).  o = [ev, obs, with, without : sets; excl : BOOLEAN].  *)
